@@ -81,17 +81,18 @@ CONTRACTS = {
         params={"self": ("ref", "MultiAgentTrajectoryExporter"), "problem": ("ref", "Problem"), "plan_path": "str",
                 "action_sequence": ("ref", "list_str"), "allow_inapplicable_actions": "bool"},
         optional=("action_sequence",), locals={"triplets": ("seq", _MT)}, returns=("seq", _MT),
-        requires=["action_sequence is not None"],
+        requires=["action_sequence is not None", "allocated(self)", "allocated(self.domain)", "allocated(self.domain.actions)"],
         # one step per joint action, in order; first pre-state = the problem's initial state; chained states; each step is the joint step of its line
         ensures=["len(result) == len(action_sequence)",
                  "implies(len(result) > 0, result[0].previous_state.is_init and result[0].previous_state.state_predicates == problem.initial_state_predicates "
                  "and result[0].previous_state.state_fluents == problem.initial_state_fluents)",
                  "forall_int(lambda k: result[k].previous_state == result[k - 1].next_state, 1, len(result))",
-                 "forall_int(lambda k: joint_step(result[k], result[k].previous_state, seq(action_sequence)[k], problem.objects, allow_inapplicable_actions), 0, len(result))"],
+                 "forall_int(lambda k: line_ok(self.domain, seq(action_sequence)[k], result[k].previous_state, allow_inapplicable_actions), 0, len(result))"],
         raises={"ValueError": "True", "KeyError": "True", "IndexError": "True"}, modifies=[],
         calls={"self.create_multi_agent_triplet": MAE + "create_multi_agent_triplet", "self._read_plan": MAE + "_read_plan",
                "create_initial_state": MAC + "create_initial_state"},
         loops={0: dict(invariants=[
+            "allocated(previous_state)",
             "len(triplets) == _i",
             "implies(_i == 0, previous_state.is_init and previous_state.state_predicates == problem.initial_state_predicates and "
             "previous_state.state_fluents == problem.initial_state_fluents)",
@@ -99,7 +100,7 @@ CONTRACTS = {
             "implies(_i > 0, triplets[0].previous_state.is_init and triplets[0].previous_state.state_predicates == problem.initial_state_predicates and "
             "triplets[0].previous_state.state_fluents == problem.initial_state_fluents)",
             "forall_int(lambda k: triplets[k].previous_state == triplets[k - 1].next_state, 1, _i)",
-            "forall_int(lambda k: joint_step(triplets[k], triplets[k].previous_state, _seq[k], problem.objects, allow_inapplicable_actions), 0, _i)",
+            "forall_int(lambda k: line_ok(self.domain, _seq[k], triplets[k].previous_state, allow_inapplicable_actions), 0, _i)",
         ], modifies=[])},
         spec_hooks=_HOOKS2),
     MAC + "apply_actions": dict(
@@ -326,3 +327,58 @@ class NoObjects(Harness):
 
 
 HARNESSES = [JointActions(), JointExport(), NoObjects()]
+
+# ---- deductive: create_multi_agent_triplet — one joint step --------------------------------------------------------------------------------
+# Relative to the assumed contract of the line parser (`pj_len / pj_name / pj_params` name what a plan line denotes) and to apply_actions
+# (proved above).  A triplet is only produced when every non-nop member of the line is applicable in the given state (or inapplicable
+# actions are allowed); it stores the given state itself as its pre-state and a fresh post-state.
+_pj_len = z3.Function("pj_len", S, I)
+_pj_name = z3.Function("pj_name", S, I, S)
+_pj_params = z3.Function("pj_params", S, I, Q)
+_MAX = "multi_agent.multi_agent_trajectory_exporter:"
+
+
+def _h_line_ok(interp, st, a):
+    """line_ok(domain, line, state, allow): every member of the joint action written on `line` is a nop, or applicable in state, or allowed"""
+    dom, line, state, allow = a
+    acts = interp.read_field(st, dom, "Domain", "actions")
+    amap = interp.read_field(st, Val(acts.t, ("ref", "dict_str_ref")), "dict_str_ref", "map")
+    j = z3.Int("lj!ok")
+    nm = _pj_name(line.t, j)
+    return Val(z3.ForAll([j], z3.Implies(z3.And(j >= 0, j < _pj_len(line.t)),
+                                          z3.Or(nm == z3.StringVal("nop"), _call_app(z3.Select(amap.t, nm), _pj_params(line.t, j), state.t), allow.t))), "bool")
+
+
+_HOOKS3 = dict(_HOOKS, line_ok=_h_line_ok,
+               pj_len=lambda interp, st, a: Val(_pj_len(a[0].t), "int"),
+               pj_name=lambda interp, st, a: Val(_pj_name(a[0].t, a[1].t), "str"),
+               pj_params=lambda interp, st, a: Val(_pj_params(a[0].t, a[1].t), ("seq", "str")))
+CONTRACTS[_MAX + "parse_action_call"] = dict(
+    prop="C16", assumed=True, params={"joint_action_call": "str"}, returns=("ref", "JointActionCall"),
+    ensures=["fresh(result)", "fresh(result.actions)", "len(seq(result.actions)) == pj_len(joint_action_call)", "pj_len(joint_action_call) >= 0",
+             "forall_int(lambda j: fresh(seq(result.actions)[j]) and fresh(seq(result.actions)[j].parameters) and "
+             "seq(result.actions)[j].name == pj_name(joint_action_call, j) and "
+             "seq(seq(result.actions)[j].parameters) == pj_params(joint_action_call, j), 0, pj_len(joint_action_call))"],
+    raises={"IndexError": "True"}, modifies=[], spec_hooks=_HOOKS3)
+CONTRACTS[MAE + "create_multi_agent_triplet"] = dict(
+    prop="C16", shards=4,
+    params={"self": ("ref", "MultiAgentTrajectoryExporter"), "previous_state": _ST, "action_call": "str", "problem_objects": ("ref", "opaque"),
+            "allow_inapplicable_actions": "bool"},
+    locals={"executed_actions": ("ref", "list_ActionCall"), "operators": ("seq", ("ref", "opaque")), "joint_action": ("ref", "JointActionCall"),
+            "next_state": _ST},
+    returns=_MT, dict_values={"dict_str_ref": "Action"},
+    requires=["allocated(self)", "allocated(self.domain)", "allocated(self.domain.actions)", "allocated(previous_state)"],
+    ensures=["fresh(result)", "result.previous_state is previous_state", "fresh(result.next_state)",
+             # produced only if every member of the line is a nop, applicable in the given state, or allowed
+             "line_ok(self.domain, action_call, previous_state, allow_inapplicable_actions)"],
+    raises={"ValueError": "not line_ok(self.domain, action_call, previous_state, allow_inapplicable_actions)", "KeyError": "True", "IndexError": "True"},
+    modifies=[],
+    calls={"parse_action_call": _MAX + "parse_action_call", "apply_actions": MAC + "apply_actions"},
+    loops={0: dict(invariants=[], modifies=["Operator.action", "Operator.domain", "Operator.grounded_call_objects", "Operator.grounded", "Operator.problem_objects",
+                                            "Operator.grounded_effects", "Operator.lifted_universal_effects", "Operator.logger"])},
+    spec_hooks=_HOOKS3)
+
+# parse_plan (above) now rests on the contract just discharged; there `line_ok` is used as an uninterpreted relation (its definition is not
+# needed to carry it from each step into the result)
+_line_ok_opaque = z3.Function("line_ok", I, S, I, B, B)
+CONTRACTS[MAE + "parse_plan"]["spec_hooks"] = dict(_HOOKS2, line_ok=lambda interp, st, a: Val(_line_ok_opaque(a[0].t, a[1].t, a[2].t, a[3].t), "bool"))
